@@ -272,12 +272,14 @@ def opNext (fm : FMachine σ α β) (P : Plan) (s : St σ α β) (c : Ctx) (v : 
     | none => opNextOk fm P { s with nN := s.nN + 1 } c v
   else opNextOk fm P s c v
 
-/-- `O.tryNext`: the recovered panic is given to O's *own* error callback, wrapped by
-    `newObserverError`, without closing O -/
-def oTryNext (fm : FMachine σ α β) (P : Plan) (s : St σ α β) (c : Ctx) (v : α) : St σ α β :=
-  match opNext fm P s c v with
+/-- the recover handler of `O.tryNext`: the recovered panic is given to O's *own* error callback,
+    wrapped by `newObserverError`, without closing O -/
+def oRecoverNext (fm : FMachine σ α β) (P : Plan) (c : Ctx) : St σ α β × Option Err → St σ α β
   | (s1, some p) => oTryError fm P s1 c (.observer p)
   | (s1, none) => s1
+
+def oTryNext (fm : FMachine σ α β) (P : Plan) (s : St σ α β) (c : Ctx) (v : α) : St σ α β :=
+  oRecoverNext fm P c (opNext fm P s c v)
 
 /-! ### the upstream subscriber U: one notification from the producer -/
 
